@@ -175,11 +175,11 @@ class Gen:
             return self._portfolio_base(dfam, r.choice(PORTFOLIO[dfam]))
         if rec["entry"] == "series" and dfam != "hourly" and r.random() < 0.3:
             rec["feed"] = r.choice([1, 2, 3])   # another legal shape of the two series (UTC weather feed, frames, own names)
-        peers = [b for b in getattr(self, "pool", {}).get(fam, []) if b.get("src") != "sample" and b["tz"] in C.LOOKALIKE]
+        peers = [b for b in getattr(self, "pool", {}).get(fam, []) if b.get("src") != "sample" and b["tz"] in C.CONTRAST]
         if peers and r.random() < 0.3:
-            # a meter in another zone with the same standard offset as a meter already in the pool (one of them without
-            # DST): the two baselines begin and end at the same instants and have the same number of rows
-            rec["tz"] = r.choice(C.LOOKALIKE[r.choice(peers)["tz"]])
+            # a meter in another zone with the same standard offset as a meter already in the pool and the other
+            # daylight-saving behaviour: the two baselines begin and end at the same instants and have the same number of rows
+            rec["tz"] = r.choice(C.CONTRAST[r.choice(peers)["tz"]])
         return rec
 
     @staticmethod
@@ -456,7 +456,12 @@ class Gen:
                 # a second model of the family (another meter, look-alike zone where there is one) is fitted and used
                 # while the first lives on
                 ob = self._like_base(mfam, self.models[m0]["profile"], base0)
-                if ob.get("src") != "sample" and base0.get("tz") in C.LOOKALIKE and r.random() < 0.6:
+                if ob.get("src") != "sample" and base0.get("tz") in C.CONTRAST and r.random() < 0.75:
+                    ob["tz"] = r.choice(C.CONTRAST[base0["tz"]])   # same standard offset, other daylight-saving behaviour
+                    if r.random() < 0.6:
+                        # a longer baseline: the two baselines differ in shape, the two reporting years below do not
+                        ob["defect"] = "long"
+                elif ob.get("src") != "sample" and base0.get("tz") in C.LOOKALIKE and r.random() < 0.5:
                     ob["tz"] = r.choice(C.LOOKALIKE[base0["tz"]])
                 dbo = self.make_data(ob)
                 mo = self.fit(mfam, dbo, profile=self.models[m0]["profile"], ignore=True, allow_abort=False)
@@ -466,7 +471,7 @@ class Gen:
                     # both meters' full reporting year (gapless, same shape), first the one, then the other: in look-alike
                     # zones the two frames begin and end at the same instants and have the same number of rows
                     d_f0 = self.make_data(self._plain_reporting(base0, "full"))
-                    d_fo = self.make_data(self._plain_reporting(ob, "full"))
+                    d_fo = self.make_data(self._plain_reporting({k: v for k, v in ob.items() if k != "defect"}, "full"))
                     self.predict(m0, d_f0, ignore=True)
                     self.predict(mo, d_fo, ignore=True)
                     self.predict(m0, d_f0, ignore=True)
